@@ -15,6 +15,7 @@ let err_class (e : Sparse.rerr) : string =
   | Sparse.XNoData -> "other"
   | Sparse.XNegative -> "other"
   | Sparse.XUnexpectedEOF -> "unexpected-eof"
+  | Sparse.XFile -> "other"
 
 let show_entry ((rq, r) : Sparse.request * Sparse.result) : string =
   let q = match rq with
@@ -33,7 +34,8 @@ let show_entry ((rq, r) : Sparse.request * Sparse.result) : string =
      D<k>                                          run goroutine k until it has nothing left to do (or is blocked)
      U<k>                                          run goroutine k until it sits at the yield point before done.Set (or is blocked/finished)
      DA                                            drain all goroutines round-robin until none can move
-     X:<state 0|1>:<K|A|R<n>>:<preload 0|1>        restart *)
+     X:<state 0|1>:<K|A|R<n>>:<preload 0|1>        restart
+     Y:<K|A|R<n>>                                  start-up that fails after replacing the state and resizing the cache *)
 let register () =
   Drv.register "c10.run" (fun args -> match args with
     | [max; rows; tab; faults; script] ->
@@ -85,6 +87,16 @@ let register () =
             | 'D' -> if thr (num hd) >= 0 then run_thread (thr (num hd)) (fun () -> false) 100000
             | 'U' -> let k = thr (num hd) in if k >= 0 then run_thread k (fun () -> at_set k) 100000
             | 'G' -> let k = thr (num hd) in if k >= 0 then run_thread k (fun () -> at_fetch k) 100000
+            | 'K' -> (match step !s Sparse.LUnlink with Some s' -> s := s' | None -> ())   (* the cache file is unlinked *)
+            | 'Y' ->   (* Y:<K|A|R<n>>  a start-up that fails late (after replacing the state and resizing the cache) *)
+                (match Stdlib.List.tl parts with
+                 | [cache] ->
+                     let cm = if cache = "K" then Sparse.CKeep else if cache = "A" then Sparse.CAbsent
+                       else Sparse.CResize (nat_of_int (num cache)) in
+                     Hashtbl.reset tmap;
+                     (match step !s (Sparse.LFailedStart { Sparse.m_state = true; m_cache = cm; m_preload = false }) with
+                      | Some s' -> s := s' | None -> ())
+                 | _ -> failwith "failed start")
             | 'X' ->
                 (match Stdlib.List.tl parts with
                  | [st; cache; pre] ->
